@@ -2,6 +2,9 @@
      <port> <int tokens ...>
    Strings are "<n> c1 .. cn" (code points), lists "<k> item1 .. itemk", ints decimal,
    bools 0/1.  One answer line per request, same token syntax.  Errors -> "ERR msg". *)
+type rd = { toks : string array; mutable pos : int }
+exception Bad of string
+let ports : (string * (rd -> unit)) list ref = ref []
 open Model
 
 let rec pos_of_int n =
@@ -17,9 +20,7 @@ let rec nat_of_int i = if i <= 0 then O else S (nat_of_int (i - 1))
 let rec int_of_nat = function O -> 0 | S n -> 1 + int_of_nat n
 
 (* ---- token stream ---- *)
-type rd = { toks : string array; mutable pos : int }
-exception Bad of string
-let next r =
+let next (r : rd) =
   if r.pos >= Array.length r.toks then raise (Bad "eof");
   let t = r.toks.(r.pos) in r.pos <- r.pos + 1; t
 let rd_int r = try int_of_string (next r) with Failure _ -> raise (Bad "int")
@@ -49,7 +50,6 @@ let wr_m f = function
   | Inl x -> f x
   | Inr e -> Buffer.clear b; Buffer.add_string b ("EXC " ^ exc_name e)
 
-let ports : (string * (rd -> unit)) list ref = ref []
 let port name f = ports := (name, f) :: !ports
 
 let () =
@@ -137,3 +137,57 @@ let () =
     let backup = rd_bool r in let nw = rd_str r in
     let old = rd_opt rd_str r in let cd = rd_opt rd_str r in let co = rd_opt rd_str r in
     wr_bool (target_okb backup nw old cd co))
+
+(* Coq strings (ascii = 8 booleans) <-> OCaml strings *)
+let ascii_of_char c =
+  let n = Char.code c in
+  let b i = (n lsr i) land 1 = 1 in
+  Ascii (b 0, b 1, b 2, b 3, b 4, b 5, b 6, b 7)
+let char_of_ascii (Ascii (b0, b1, b2, b3, b4, b5, b6, b7)) =
+  let v b i = if b then 1 lsl i else 0 in
+  Char.chr (v b0 0 + v b1 1 + v b2 2 + v b3 3 + v b4 4 + v b5 5 + v b6 6 + v b7 7)
+let rec cstring_of s i = if i >= String.length s then EmptyString else String (ascii_of_char s.[i], cstring_of s (i + 1))
+let cstr s = cstring_of s 0
+let rec ostring_of = function EmptyString -> "" | String (a, r) -> String.make 1 (char_of_ascii a) ^ ostring_of r
+(* names travel as code-point strings in the token protocol *)
+let rd_name r = cstr (String.concat "" (List.map (fun n -> String.make 1 (Char.chr (int_of_n n))) (rd_str r)))
+let wr_name s = wr_str (List.map (fun c -> n_of_int (Char.code c)) (List.of_seq (String.to_seq (ostring_of s))))
+
+let rd_fo r =
+  let w = rd_z r in let pl = rd_bool r in let se = rd_bool r in let cl = rd_bool r in
+  let sq = rd_bool r in let el = rd_bool r in
+  let ls = (match rd_int r with 0 -> LPreserve | 1 -> LLoose | _ -> LTight) in
+  let ip = rd_bool r in let nb = rd_bool r in
+  { f_width = w; f_plaintext = pl; f_semantic = se; f_cleanups = cl; f_smartquotes = sq;
+    f_ellipses = el; f_list_spacing = ls; f_inplace = ip; f_nobackup = nb }
+
+let rec assoc_str k = function
+  | [] -> None
+  | (k', v) :: r -> if str_eqb k k' then Some v else assoc_str k r
+
+let () =
+  (* main_run: fo, files, output option, stdin, read table [(path, content option)], fmt table [(text, result)] *)
+  port "main_run" (fun r ->
+    let o = rd_fo r in let files = rd_strs r in let output = rd_opt rd_str r in let stdin_ = rd_str r in
+    let rt = rd_list (fun r -> let p = rd_str r in let c = rd_opt rd_str r in (p, c)) r in
+    let ft = rd_list (fun r -> let t = rd_str r in let res = rd_str r in (t, res)) r in
+    let fmt _ t = (match assoc_str t ft with Some x -> x | None -> [n_of_int 63]) in
+    let read p = (match assoc_str p rt with Some c -> c | None -> None) in
+    let (acts, oc) = main_run fmt read stdin_ files output o in
+    wr_list (function
+      | AWriteStdout b -> wr_int 0; wr_str b
+      | AAtomicWrite (p, b, bk) -> wr_int 1; wr_str p; wr_str b; wr_bool bk) acts;
+    wr_int (match oc with Done -> 0 | ErrValue -> 1 | ErrOther -> 2));
+  (* merge: fields, cli [(name, value option)], cfg [(name, value option)], auto, explicit, locked; values are strings *)
+  port "merge" (fun r ->
+    let fields = rd_list rd_name r in
+    let tbl r = rd_list (fun r -> let n = rd_name r in let v = rd_opt rd_str r in (n, v)) r in
+    let cli = tbl r in let cfg = tbl r in let auto = rd_bool r in
+    let explicit = rd_list rd_name r in let locked = rd_list rd_name r in
+    let look t n = (match List.find_opt (fun (k, _) -> ostring_of k = ostring_of n) t with Some (_, v) -> v | None -> None) in
+    let res = merge_fields fields (look cli) (look cfg) auto explicit locked in
+    wr_list (fun (n, _) -> wr_name n; wr_opt wr_str (res n)) cli);
+  port "find_config" (fun r ->
+    let dirs = rd_list (rd_list (fun r -> let n = rd_name r in
+      let st = (match rd_int r with 0 -> CAbsent | 1 -> CPlain | 2 -> CPyprojectWithSection | _ -> CPyprojectWithoutSection) in (n, st))) r in
+    wr_opt (fun (d, n) -> wr_int (int_of_nat d); wr_name n) (find_config dirs O))
